@@ -180,7 +180,7 @@ func nullableOf(G []gnode) []bool {
 				for _, k := range n.Kids {
 					v = v || nu[k]
 				}
-			case "memo", "named", "pass", "ltrim", "rtrim":
+			case "memo", "named", "pass", "ltrim", "rtrim", "single", "suppress":
 				v = nu[n.Kids[0]]
 			case "seq":
 				switch n.Mode {
@@ -214,7 +214,7 @@ func leftEdgesOf(G []gnode, nu []bool) [][]gedge {
 	for i0, n := range G {
 		i := i0 + 1
 		switch n.K {
-		case "opt", "memo", "named", "pass", "ltrim", "rtrim":
+		case "opt", "memo", "named", "pass", "ltrim", "rtrim", "single", "suppress":
 			es[i] = append(es[i], gedge{n.Kids[0], false})
 		case "any":
 			for _, k := range n.Kids {
@@ -309,7 +309,7 @@ func productiveG(G []gnode) bool {
 				for _, k := range n.Kids {
 					v = v || pr[k]
 				}
-			case "memo", "named", "pass", "ltrim", "rtrim":
+			case "memo", "named", "pass", "ltrim", "rtrim", "single", "suppress":
 				v = pr[n.Kids[0]]
 			case "seq":
 				switch n.Mode {
